@@ -416,6 +416,19 @@ def shard(acc, tier, idx, n):
             # ... and followed by a later variant whose operand count equals the number of operands written: definition order decides
             group.append((f'u{k}', [v1, {'opcode': 0xF4, 'sets': [[(a1, 9), (a2, 10)]]}]))
         run_group(acc, group, texts_e2)
+    # a listed combination accepts exactly as many operands as it lists: more operands written than listed -> not this combination
+    texts_more = texts_e2 + [(x, y, z) for x in ('a', '5') for y in ('b', '5') for z in ('5', 'a')]
+    for g0 in range(0, len(singles_alts), G):
+        ctr += 1
+        if ctr % n != idx:
+            continue
+        group = []
+        for k, a1 in enumerate(singles_alts[g0:g0 + G]):
+            v1 = {'opcode': 0xFB, 'count': 1, 'sets': [], 'specific': [[(a1, 2)]]}
+            v2 = {'opcode': 0xFC, 'sets': [[(a1, 9), ('reg_a', 10)] if a1 != 'reg_a' else [(a1, 9)], [('numeric', 12), ('reg_b', 13)]]}
+            group.append((f'm{k}', [v1, v2]))
+            group.append((f'n{k}', [{'opcode': 0xFD, 'count': 2, 'sets': [], 'specific': [[(a1, 2), ('numeric', 3)]]}]))
+        run_group(acc, group, texts_more)
     for g0 in range(0, len(singles_alts), G):
         ctr += 1
         if ctr % n != idx:
